@@ -51,8 +51,22 @@ class Runner:
         self.n += 1
         base = os.path.join(self.sc, "%s%d_O%d%s" % (tag, self.n, opt, "a" if asan else ""))
         src = c08gen.render(prog)
+        extra = []
+        if prog.get("files"):
+            # an imported module of its own (unique name per run)
+            mod = os.path.basename(base) + "_m"
+            src = src.replace("@MOD@", mod)
+            for k, v in prog["files"].items():
+                f = os.path.join(self.sc, k.replace("@MOD@", mod) + ".ddp")
+                open(f, "w").write(v)
+                extra.append(f)
         open(base + ".ddp", "w").write(src)
-        r = self.b.compile(base + ".ddp", base, opt=opt, asan=asan, timeout=600)
+        r = self.b.compile(base + ".ddp", base, opt=opt, asan=asan, timeout=600, cwd=self.sc)
+        for f in extra:
+            try:
+                os.remove(f)
+            except OSError:
+                pass
         if r["stage"] != "ok":
             return ("compile", "", r["out"][-1500:])
         rc, out, err = self.b.run(base, timeout=60 if asan else 30)
@@ -234,6 +248,15 @@ def main():
     ncorpus = len(progs)
     reps = 1 if ck.quick else 4
     progs += c08gen.raw_programs()
+    # value parameters of generic / monomorphic callees (same module / imported module, called directly / from inside
+    # another function) with a LOCAL variable as argument; quick: every same-module generic program and a sample
+    gp = c08gen.generic_param_programs()
+    if ck.quick:
+        must = [it for it in gp if it[0]["gp"][1] == "generic" and it[0]["gp"][2] == "same"]
+        rest = [it for it in gp if it not in must]
+        rng.shuffle(rest)
+        gp = must + rest[:7]
+    progs += gp
     for _ in range(reps):
         # quick: a seed-chosen sample: 40 matrix cells (one holder each) and 46 aliasing shapes (at least one program of
         # every shape); thorough: every cell with both holders and every shape program, four value sets
@@ -329,6 +352,38 @@ def main():
                     os.remove(f)
                 except OSError:
                     pass
+            # ---- generic instantiations: the annotator analyses the body of an instantiation made in the declaring
+            # module like the body of its monomorphic twin (model: an instantiation is a function at the position of
+            # the generic declaration); an instantiation made from another module gets no table at all (model:
+            # fnometa, never elided).  Tables dumped by constx exactly as compiler.VisitFuncCall looks them up.
+            gpaths, gmeta = [], []
+            for ty in c08gen.GP_TYPES:
+                for flav, place in (("generic", "same"), ("mono", "same"), ("generic", "module")):
+                    d, gprog = c08gen.generic_param_program(ty, flav, place, "direct")
+                    n = "gx_%s_%s_%s" % (ty, flav, place)
+                    f = os.path.join(sc, n + ".ddp")
+                    open(f, "w").write(gprog["raw"].replace("@MOD@", n + "_m"))
+                    for k, v in gprog["files"].items():
+                        open(os.path.join(sc, k.replace("@MOD@", n + "_m") + ".ddp"), "w").write(v)
+                    gpaths.append(f)
+                    gmeta.append((ty, flav, place, gprog))
+            gp_ = subprocess.run([cx], input="\n".join(gpaths) + "\n", capture_output=True, text=True, timeout=900, env=dict(os.environ, DDPPATH=b.dir))
+            gouts = gp_.stdout.splitlines()
+            if len(gouts) != len(gpaths) or not all(o.startswith("OK") for o in gouts):
+                ck.broken_obligation("constx failed on the generic-parameter programs", (gp_.stdout + gp_.stderr)[-1500:])
+            else:
+                tabs = {}
+                for (ty, flav, place, gprog), o in zip(gmeta, gouts):
+                    tabs[(ty, flav, place)] = {w.split(":")[0].replace("@", "").replace("import.", ""): w.split(":")[1] for w in o.split()[1:]}
+                for ty in c08gen.GP_TYPES:
+                    g, m_, x = tabs[(ty, "generic", "same")], tabs[(ty, "mono", "same")], tabs[(ty, "generic", "module")]
+                    analysis_checked += 1
+                    bad_same = {k: (g.get(k), m_[k]) for k in m_ if k.startswith(("kern_", "schreiber")) and g.get(k) != m_[k]}
+                    bad_x = {k: x[k] for k in x if k.startswith(("kern_", "schreiber")) and x[k] != "?"}
+                    if bad_same or bad_x:
+                        analysis_bad += 1
+                        ck.broken_obligation("constant-parameter tables of generic instantiations (%s): same-module instantiations differing from their monomorphic twins %s; cross-module instantiations that carry a table %s (the model analyses a same-module instantiation like a function and gives a cross-module one no table)" % (ty, bad_same, bad_x),
+                                             gmeta[0][3]["raw"][:1500])
     log("[c08] generation+model+constx done at %.0fs" % (_t.time() - T0))
     # ---- run
     jobs = [(i, o) for i in range(len(items)) for o in opts]
